@@ -330,6 +330,20 @@ def run(ctx):
                 ok_gate = True
                 break
         ctx.inst("C17.R5", "convert#gate", ok_gate, detail, conv.loc())
+        # every Ok the function returns is the value that went through the gated pipeline (no shortcut around the gate / the second lookup)
+        n_ok = 0
+        for b in range(conv.n):
+            if conv.blocks[b].get("cleanup"):
+                continue
+            for st_ in conv.stmts(b):
+                if st_["k"] == "assign" and st_["rv"]["k"] == "agg" and st_["rv"].get("adt") == "core::result::Result" and st_["rv"].get("variant") == "Ok" and st_["lhs"]["l"] == 0 and not st_["lhs"]["p"]:
+                    roots = conv.trace(st_["rv"]["ops"][0])
+                    via = bool(roots) and all(r[0] == "call" and r[1] == "blots_core::units::Unit::convert_from_base" for r in roots)
+                    ctx.inst("C17.R5", "convert#ok-result[%d]" % n_ok, via and all(conv.dominates(u, b) for u in from_calls),
+                             "Ok(..) returned by convert carries %s; must be the result of convert_from_base(convert_to_base(value)) behind both unit lookups and the category gate" % [r[:2] for r in roots], conv.loc(b))
+                    n_ok += 1
+        if n_ok == 0:
+            ctx.inst("C17.R5", "convert#ok-result", None, "no `Ok(..)` construction found in units::convert (result forwarded from a callee?)", conv.loc())
         # receivers come from resolve_unit(from_unit) / resolve_unit(to_unit): params 2 and 3
         r1 = conv.call_result_origin(recv_to := conv.ref_root(conv.term(to_calls[0])["args"][0]))
         r2 = conv.call_result_origin(conv.ref_root(conv.term(from_calls[0])["args"][0]))
@@ -419,6 +433,71 @@ def run(ctx):
         ctx.inst("C17.R8", "resolve_unit#exact-first", ok, "Ok sources in program order: %s; exact lists %s, case-insensitive lists %s" % (order, sorted(exact_lists), sorted(other_lists)), H.loc(ru["body"]))
     else:
         ctx.inst("C17.R8", "resolve_unit#exact-first", None, "could not identify the exact-match list", H.loc(ru["body"]))
+
+    # ---- R9 the convert built-in hands the user's identifiers to the table unmodified
+    ctx.rule("C17.R9", "every caller of units::convert in the evaluator passes (number, from, to) taken from its own arguments in that order, the two identifiers exactly as the user wrote them (no rewriting between as_string and the lookup): every listed spelling, including non-ASCII ones, reaches resolve_unit", floor=1)
+    BC = "blots_core::functions::BuiltInFunction::call"
+    callers = M.callers_of([core, ctx.cli, ctx.wasm], lambda d: d == "blots_core::units::convert")
+    n9 = 0
+    for name, bbs in sorted(callers.items()):
+        if name.startswith("blots_core::units::"):
+            continue
+        fn = M.Fn(core.mir_fn(name), name) if name.startswith("blots_core::") or name.startswith("<blots_core") else None
+        if fn is None:
+            continue
+        for b in bbs:
+            t = fn.term(b)
+            want = [("as_number", 0), ("as_string", 1), ("as_string", 2)]
+            verdicts, det = [], []
+
+            def judge(f_, op, acc, ai, depth=0):
+                """True: the operand is acc(args[ai]) unmodified; False: it was rewritten on the way; None: not decided"""
+                roots = f_.trace(op)
+                if not roots:
+                    return None
+                out = True
+                for r in roots:
+                    if r[0] == "call" and r[1] == "blots_core::values::Value::" + acc:
+                        rr = f_.trace(f_.term(r[2])["args"][0])
+                        idx_ok = None
+                        for q in rr:
+                            if q[0] == "call" and q[1].endswith("Index<I>>::index"):
+                                it = f_.term(q[2])["args"][1]
+                                idx_ok = it.get("int") is not None and int(it["int"]) == ai
+                        if idx_ok is False:
+                            return False
+                        if idx_ok is None:
+                            out = None
+                    elif r[0] == "call" and (r[1].startswith("blots_core::") or r[1].startswith("<blots_core")) and depth < 2:
+                        # an extracted helper: what does it return?
+                        try:
+                            g_ = M.Fn(core.mir_fn(r[1]), r[1])
+                        except Exception:
+                            return None
+                        ret = g_.trace({"copy": {"l": 0, "p": []}})
+                        if ret and all(x[0] == "param" for x in ret):
+                            sub = [judge(f_, f_.term(r[2])["args"][x[1] - 1], acc, ai, depth + 1) for x in ret]
+                            if any(v is False for v in sub):
+                                return False
+                            if any(v is None for v in sub):
+                                out = None
+                        elif any(x[0] == "call" and not x[1].startswith("blots_core::") and not x[1].startswith("<blots_core") for x in ret):
+                            return False  # the helper computes a new string / number with a std routine (replace, trim, to_lowercase, ...)
+                        else:
+                            out = None
+                    elif r[0] == "call":
+                        return False  # rewritten by a non-transparent std routine
+                    else:
+                        out = None
+                return out
+
+            for i, (acc, ai) in enumerate(want):
+                v = judge(fn, t["args"][i], acc, ai)
+                verdicts.append(v)
+                det.append("%s <- %s: %s" % (["value", "from", "to"][i], [r[:2] for r in fn.trace(t["args"][i])], {True: "unmodified", False: "REWRITTEN or wrong argument", None: "not decided"}[v]))
+            verdict = False if any(v is False for v in verdicts) else (None if any(v is None for v in verdicts) else True)
+            ctx.inst("C17.R9", "%s->units::convert[%d]" % (name.replace("blots_core::", ""), n9), verdict, "; ".join(det) + " (want as_number(args[0]), as_string(args[1]), as_string(args[2]) through value-preserving conversions only)", fn.loc(b))
+            n9 += 1
 
 
 REFERENCE = {
